@@ -110,13 +110,13 @@ CHECKS['C08'] = dict(
          'SHANI/GFNI-off flags clear exactly their bits; self-test only after successful init; ISA containment: every assembly routine reachable '
          'from a variant TU (called or bound, transitively through assembly callees) uses only instruction-set extensions (classified from '
          'encoding, mnemonic and operand width) whose IMB_FEATURE bits the variant requires or a dominating feature test establishes; '
-         'object-level clone / constant-width consistency of the kernels. NOT decided: bit-equality of different kernels for the same '
+         'object-level clone / constant-width / constant-table-copy consistency of the kernels. NOT decided: bit-equality of different kernels for the same '
          'algorithm; instructions emitted by the C compiler.',
     design='§3 C08', note=TB)
 
 _NOTVAL = ('The property proper (output equals the published algorithm for all inputs) is a value-level claim about hand-written SIMD '
            'and is NOT decided by this check; only the named structural necessary condition is.')
-_DEV = ' Added object-level consistency rules over the assembled kernels of this family (none decides the algorithm, each is a necessary condition that one dropped or altered line violates): key-size siblings differ only in round-dependent instructions; the constants of one increment table are added with one element width within a function; unsigned tests of a byte counter against one near-overflow constant agree on strictness within a function; no routine computes more never-read values or reads more never-defined registers than on the reference tree (per-routine counts of the reference tree).'
+_DEV = ' Added object-level consistency rules over the assembled kernels of this family (none decides the algorithm, each is a necessary condition that one dropped or altered line violates): key-size siblings differ only in round-dependent instructions; the constants of one increment table are added with one element width within a function; unsigned tests of a byte counter against one near-overflow constant agree on strictness within a function; no routine computes more never-read values or reads more never-defined registers than on the reference tree (per-routine counts of the reference tree); the copies of one named constant table kept in three or more assembly units agree up to replication to the vector width, alignment padding and extension (a copy standing alone is a deviant).'
 
 CHECKS['C01'] = dict(
     technique='static analysis: binding/dispatch agreement (name tokens of resolved callees under constant propagation of mode and key size); clone / contradiction / definition-use deviance rules over the assembled kernels (exact CFG, liveness and must-defined dataflow)',
@@ -157,7 +157,7 @@ CHECKS['C04'] = dict(
          'that completes a job also clears the slot and returns the lane, submit parks the job argument and pops a lane, and the stage bit is the '
          'manager\'s own; every mode/algorithm parked in a manager with 16-bit lane lengths has a validation bound <= 0xFFFF (this rule found K12); '
          'in every manager routine the block count handed to the multi-lane kernel and the vector subtracted from all lane lengths derive from the '
-         'same lane-minimum search on every path (provenance domain); manager routines hold no more never-read values / never-defined reads than on the reference tree.',
+         'same lane-minimum search on every path (provenance domain); manager routines hold no more never-read values / never-defined reads than on the reference tree; the copies of one named constant table (lane masks, byte swaps) in three or more manager units agree.',
     design='§3 C04', note=TB_ASM)
 CHECKS['C13'] = dict(
     technique='static analysis: CFG must-scrub typestate on C locals, arch-sibling agreement, zero/non-zero abstract interpretation of vector registers at every exit of every assembled function, typed zero-store coverage of manager fields against a reference baseline',
